@@ -45,13 +45,21 @@ var c19Sels = []struct {
 	keys []string
 	vars bool
 	v    interface{} // value given for $v with the subscription request (nil = not given: the default, true, decides)
+	// decl / given / want: variables of the sel's own (declaration text, values given with the request) and what the computed
+	// field pick then answers - the variables are used INSIDE a list and an object literal only
+	decl  string
+	given map[string]interface{}
+	want  map[string]interface{}
 }{
-	{"{name}", []string{"name"}, false, nil},
-	{"{n}", []string{"n"}, false, nil},
-	{"{name n}", []string{"name", "n"}, false, nil},
-	{"{name n @include(if: $v)}", []string{"name", "n"}, true, nil},
+	{"{name}", []string{"name"}, false, nil, "", nil, nil},
+	{"{n}", []string{"n"}, false, nil, "", nil, nil},
+	{"{name n}", []string{"name", "n"}, false, nil, "", nil, nil},
+	{"{name n @include(if: $v)}", []string{"name", "n"}, true, nil, "", nil, nil},
 	// the same request text with the variable given as false: this subscriber's own selection leaves n out
-	{"{name n @include(if: $v)}", []string{"name"}, true, false},
+	{"{name n @include(if: $v)}", []string{"name"}, true, false, "", nil, nil},
+	// variables that appear only nested in literals (a member of a list, a field of an input object): one left to its
+	// default, one given with the request
+	{"{name pick(only: [$t, \"x\"], w: {size: $z})}", []string{"name", "pick"}, true, nil, "$t: String = \"dt\", $z: Int = 3", map[string]interface{}{"t": "gt"}, map[string]interface{}{"pick": "[gt x]|map[size:3]"}},
 }
 
 type c19Op struct {
@@ -136,6 +144,10 @@ func (r *refReg) apply(o c19Op) (log []string, cnt int, wantErr bool) {
 			s.Deliveries++
 			msg := map[string]interface{}{}
 			for _, k := range c19Sels[s.Sel].keys {
+				if w, computed := c19Sels[s.Sel].want[k]; computed {
+					msg[k] = w
+					continue
+				}
 				if _, bad := c19Events[o.Event][k].(error); bad {
 					msg[k] = nil
 					wantErr = true
@@ -265,6 +277,9 @@ func (r *c19SubRes) Resolve(field *ggql.Field, args map[string]interface{}) (int
 	return ggql.NewSubscription(sub, field, args), nil
 }
 func (e *c19EvRes) Resolve(field *ggql.Field, args map[string]interface{}) (interface{}, error) {
+	if field.Name == "pick" {
+		return fmt.Sprintf("%v|%v", args["only"], args["w"]), nil
+	}
 	if err, bad := e.e[field.Name].(error); bad {
 		return nil, err
 	}
@@ -272,7 +287,7 @@ func (e *c19EvRes) Resolve(field *ggql.Field, args map[string]interface{}) (inte
 }
 
 // (count and evs are used by C20 / the list part of C19: a scalar-typed and a list-typed subscription field)
-const c19SDL = "type Query { i: Int }\ntype Subscription { ev(id: String): Ev count(id: String): Int evs(id: String): [Ev] }\ntype Ev { name: String n: Int }\n"
+const c19SDL = "type Query { i: Int }\ntype Subscription { ev(id: String): Ev count(id: String): Int evs(id: String): [Ev] }\ntype Ev { name: String n: Int pick(only: [String], w: W): String }\ninput W { size: Int = 1 }\n"
 
 func newC19H(reflectEvents bool) *c19H {
 	h := &c19H{reflectE: reflectEvents, exes: map[string]*ggql.Executable{}}
@@ -319,12 +334,19 @@ func (h *c19H) do(o c19Op) (log []string, cnt int, gotErr bool, pi *core.PanicIn
 			h.labels++
 			q := "subscription { " + body + " }" + frag
 			if sel.vars {
-				q = "subscription S($v: Boolean = true) { " + body + " }" + frag
+				decl := "$v: Boolean = true"
+				if sel.decl != "" {
+					decl = sel.decl
+				}
+				q = "subscription S(" + decl + ") { " + body + " }" + frag
 			}
 			var res map[string]interface{}
 			var svars map[string]interface{}
 			if sel.v != nil {
 				svars = map[string]interface{}{"v": sel.v}
+			}
+			if sel.given != nil {
+				svars = deepCopyVars(sel.given)
 			}
 			if h.prepared {
 				// one parsed executable per request text, shared by every subscriber that sends that request
@@ -482,15 +504,15 @@ func runC19(c *core.Ctx) {
 		prepared          bool
 	}
 	cfgs := []cfg{
-		{"full alphabet, <= 2 live", 2, []int{0, 1, 2, 3, 4}, []int{0, 1, 2}, []int{0, 1, 2, 3}, false, false},
+		{"full alphabet, <= 2 live", 2, []int{0, 1, 2, 3, 4, 5}, []int{0, 1, 2}, []int{0, 1, 2, 3}, false, false},
 		{"reduced alphabet, <= 3 live, reflection events", 3, []int{0, 2}, []int{0, 2}, []int{0, 1, 2}, true, false},
-		{"reduced alphabet, <= 3 live, prepared requests", 3, []int{0, 3, 4}, []int{0, 2}, []int{0, 1, 2}, false, true},
+		{"reduced alphabet, <= 3 live, prepared requests", 3, []int{0, 3, 4, 5}, []int{0, 2}, []int{0, 1, 2}, false, true},
 	}
 	if c.Thorough() {
 		cfgs = []cfg{
-			{"full alphabet, <= 3 live", 3, []int{0, 1, 2, 3, 4}, []int{0, 1, 2}, []int{0, 1, 2, 3}, false, false},
+			{"full alphabet, <= 3 live", 3, []int{0, 1, 2, 3, 4, 5}, []int{0, 1, 2}, []int{0, 1, 2, 3}, false, false},
 			{"reduced alphabet, <= 4 live, reflection events", 4, []int{0, 2}, []int{0, 2}, []int{0, 1, 2}, true, false},
-			{"reduced alphabet, <= 4 live, prepared requests", 4, []int{0, 3, 4}, []int{0, 2}, []int{0, 1, 2}, false, true},
+			{"reduced alphabet, <= 4 live, prepared requests", 4, []int{0, 3, 4, 5}, []int{0, 2}, []int{0, 1, 2}, false, true},
 		}
 	}
 	completed := true
